@@ -193,6 +193,26 @@ def explore(ck: Check, n_tables: int, xlsx_every: int) -> None:
         ck.oracle_evaluations += 1
         if isinstance(got, str) or [g[0] for g in got] != ["S1", "EMPTY", "S3"] or got[2][2] != [["2"]]:
             ck.fail("empty-sheet", f"a workbook with an empty sheet between two others cannot be iterated: {str(got)[:80]}", {"format": "xlsx"})
+        # ---- headings that are not text (spreadsheets deliver numbers): the column is still named by the heading's text
+        for k in range(3):
+            import openpyxl
+            heads: list[Any] = ["region", 2019 + k, 2020.5, f"Q{k}"]
+            rng.shuffle(heads)
+            body = [[f"r{j}c{c}" for c in range(len(heads))] for j in range(3)]
+            path = tdp / f"numhead{k}.xlsx"
+            wbx = openpyxl.Workbook()
+            wsx = wbx.active
+            wsx.append(heads)
+            for r in body:
+                wsx.append(r)
+            wbx.save(path)
+            ck.case(("numeric-headings", str(heads)), feature="xlsx/numeric-headings")
+            ck.oracle_evaluations += 1
+            got = observe_file(path)
+            want_h = [str(h) for h in heads]
+            if isinstance(got, str) or got[0][1] != want_h or got[0][2] != body:
+                ck.fail("by-name", f"xlsx with headings {heads!r}: columns are not reachable under the headings' texts {want_h}: {str(got)[:120]}",
+                        {"headings": [str(h) for h in heads], "format": "xlsx"})
         # ---- external schema sheet: (name, description, type) rows -> properties in order, positions 0..n-1, same reads
         for i in range(max(5, n_tables // 10)):
             names = gen_table(rng, n_cols=rng.randint(1, 5), n_rows=0, cleaning_headers=(i % 2 == 0))[0]   # some names are not legal anchors
@@ -212,6 +232,13 @@ def explore(ck: Check, n_tables: int, xlsx_every: int) -> None:
                 if list(props) != names or [p["position"] for p in props.values()] != list(range(len(names))):
                     ck.fail("external-schema", "external schema: names/positions are not the sheet's rows in order", {"names": names})
                 hand = {"type": "object", "properties": {n: {"type": "string", "position": k} for k, n in enumerate(names)}}
+                # the same schema listed in another order / with a column left out: the recorded positions still decide
+                resorted = {**doc, "properties": {k: doc["properties"][k] for k in sorted(doc["properties"], reverse=True)}}
+                with CSV_Workbook(dpath) as dwb:
+                    sh = dwb.sheet("").set_schema(SchemaMaker.from_json(resorted))
+                    rr = [[cell_text(r.name(n).value()) for n in names] for r in sh.rows()]
+                if rr != data[1:]:
+                    ck.fail("external-schema", "an external schema re-listed in another order reads other cells under the same names", {"names": names})
                 reads = []
                 for d in (doc, hand):
                     with CSV_Workbook(dpath) as dwb:
